@@ -11,6 +11,25 @@ CLAIMS = {
         note="Assumes RDKit's AddHs/mixture additivity contract (fake molecule), CrossHair's exhaustion claim and z3. Key sets of 3-4 elements + charge; 1-3 atoms for decompose.",
         ref="3/C07",
     ),
+    "C08": dict(
+        engine="xh+smt",
+        technique="inductive step of the rule matcher by bounded symbolic execution (CrossHair + z3) per shipped rule; z3 regex inclusion for the ban pattern",
+        text="One solver query per record of both shipped rule files shows that apply_rule, from an arbitrary well-formed state with unbounded integers, either refuses a rule that does not fit or subtracts exactly ratio x composition with ratio >= 1 (charge included) without mutating its inputs; with the exit condition and the constructor invariant this gives by induction that every accepted completion sums to the imbalance, for any search depth. Selection functions, single_impute side selection and a bounded whole-search cross-check (real dfs/match on a 4-rule sub-database) close the gap to what is appended; the ban regex is translated from the source literals and shown by z3 to catch every database dihalogen; database records are re-decomposed with real RDKit.",
+        note="Induction argument over the DFS path is ours (cross-checked on the bounded whole search); MolFromSmiles stubs; table check of the 68 records is concrete, not a solver result.",
+        ref="3/C08",
+    ),
+    "C13": dict(
+        technique="bounded symbolic execution of ConfidencePredictor.predict with symbolic real confidences and thresholds (CrossHair + z3)",
+        text="The real predict() runs on row layouts mixing all methods with solver-chosen confidences c and thresholds t1<=t2 in [0,1]: reported confidence = c for both thresholds, solved iff c >= t (the boundary c = t is a solver case, not a sample), demoted rows get an issue naming the threshold, every other row is bit-identical, confident_cnt = rows kept, monotone in t. Path-exhaustive per layout.",
+        note="Feature extraction, pandas, numpy.round and the xgboost model are stubs returning an arbitrary number per MCS row; floats are modelled as reals.",
+        ref="3/C13",
+    ),
+    "C19": dict(
+        technique="one inductive step from an arbitrary invariant-satisfying database by bounded symbolic execution (CrossHair + z3); base case concrete",
+        text="add_entry / add_entries / remove_entry of the real RuleImputeManager are executed from every pre-state shape of <= 2 (thorough 3) records satisfying the invariant, with solver-chosen arguments and symbolic per-token composition: the invariant is preserved, rejected adds leave the database unchanged and are reported, remove deletes only the named record. One step from an arbitrary state covers histories of any length. The shipped files are checked against the invariant concretely (known finding: duplicates in the shipped manual database).",
+        note="MolFromSmiles/decompose stubbed by a symbolic world; string identity of SMILES (the manager's own notion of duplicate).",
+        ref="3/C19",
+    ),
 }
 
 NOT_APPLICABLE = {
